@@ -21,7 +21,7 @@ def run(ctx):
     cov = {"evaluations": int(ev), "distinct_nontrivial": int(c.get("distinct_nontrivial", 0)),
            "rule": "parse: every string of <= %d tokens over a 33-token alphabet ({ } [ ] , : \" \\ u d 0 a f 1 - . e / * SP LF CR 0x01 0x80 0xFF true null "
                    "e-acute \\ud83d \\ude00 t n), each in an exactly sized heap block under ASan, error line/column checked against the line structure "
-                   "(CRLF, CR, LF), and every byte prefix of every accepted document of one token less; nesting 1/10/100/1000 of arrays, objects, mixed (closed and truncated); round trip: every value tree with <= %d nodes "
+                   "(CRLF, CR, LF), and every byte prefix of every accepted document of one token less; nesting 1/10/100/1000 of arrays, objects, mixed, and with scalar / empty-container siblings on every level (closed and truncated); wide arrays and objects with 0..300 and 2^k-1, 2^k, 2^k+1 (k = 9..14) members; round trip: every value tree with <= %d nodes "
                    "over null/true/false/0/-1/INT_MIN/INT_MAX/INT64_MIN/INT64_MAX, all strings of length <= 2 over {a \" \\ / LF CR TAB 0x01 0x7f e-acute emoji}, every byte 0x01..0x7f alone and between two letters, 64-bit integers at the digit-count and double-precision boundaries, "
                    "lists and maps; stripComments: every string of <= %d symbols over { / * \" \\ LF CR a SP } against a reference state machine; "
                    "parser reuse: every pair (first document of <= %d tokens, second of <= %d tokens) parsed by one Json::Parser object - verdict, value, error line/column/text of the second parse equal those of a fresh parser. "
